@@ -33,9 +33,9 @@ func hlslOptionSets(thorough bool) []hlslOpt {
 			return o
 		}}
 	}
-	out := []hlslOpt{mk(hlsl.ShaderModel5_1, true, true, true), mk(hlsl.ShaderModel6_0, false, true, false), mk(hlsl.ShaderModel6_6, true, false, true)}
+	out := []hlslOpt{mk(hlsl.ShaderModel5_1, true, true, true), mk(hlsl.ShaderModel6_0, false, true, false), mk(hlsl.ShaderModel6_6, true, true, true)}
 	if thorough {
-		out = append(out, mk(hlsl.ShaderModel5_0, false, false, false), mk(hlsl.ShaderModel6_2, true, true, false), mk(hlsl.ShaderModel6_5, false, true, true))
+		out = append(out, mk(hlsl.ShaderModel5_0, false, true, false), mk(hlsl.ShaderModel6_2, true, true, false), mk(hlsl.ShaderModel6_5, false, true, true))
 	}
 	return out
 }
@@ -52,9 +52,9 @@ func mslOptionSets(thorough bool) []mslOpt {
 			return o
 		}}
 	}
-	out := []mslOpt{mk(msl.Version2_0, msl.BoundsCheckUnchecked, true, true), mk(msl.Version2_4, msl.BoundsCheckRestrict, true, false), mk(msl.Version3_1, msl.BoundsCheckReadZeroSkipWrite, false, true)}
+	out := []mslOpt{mk(msl.Version2_0, msl.BoundsCheckUnchecked, true, true), mk(msl.Version2_4, msl.BoundsCheckRestrict, true, false), mk(msl.Version3_1, msl.BoundsCheckReadZeroSkipWrite, true, true)}
 	if thorough {
-		out = append(out, mk(msl.Version1_2, msl.BoundsCheckUnchecked, false, false), mk(msl.Version2_1, msl.BoundsCheckReadZeroSkipWrite, true, true), mk(msl.Version3_0, msl.BoundsCheckRestrict, false, true))
+		out = append(out, mk(msl.Version1_2, msl.BoundsCheckUnchecked, true, false), mk(msl.Version2_1, msl.BoundsCheckReadZeroSkipWrite, true, true), mk(msl.Version3_0, msl.BoundsCheckRestrict, true, true))
 	}
 	return out
 }
